@@ -293,6 +293,8 @@ struct ASTNode {
         struct {
             ASTNode **statements;
             int count;
+            int end_line;      /* position of the closing brace (0 = unknown): where the block's scope ends */
+            int end_column;
         } block;
         struct {
             char *name;
@@ -453,6 +455,8 @@ typedef struct {
     bool from_c_header;  /* True if this constant was loaded from a C header #define */
     int def_line;        /* Line where variable was defined */
     int def_column;      /* Column where variable was defined */
+    int scope_end_line;  /* Where the enclosing block ends (0 = not known / still open) */
+    int scope_end_column;
 } Symbol;
 
 /* Function table entry */
